@@ -72,6 +72,8 @@ type FnCtx struct {
 	loopCellAllocs  map[string][]*ssa.Alloc
 	loopCellGeneric map[string]bool
 	entryFrees map[*ssa.FreeVar]Val
+	useLines   bool // line-measure spec functions (mxl/fstl/lstl) are in play
+	cellsMode  bool // the cell model of ansi.expand is in play
 }
 
 func (c *FnCtx) declare(name, decl string) {
@@ -412,7 +414,13 @@ func pathType(elemT types.Type, path []int) types.Type {
 func (s *State) refFacts(c comp, term string) {
 	switch {
 	case c.Part == "b":
-		s.assume(and(app("<=", "0", term), app("<", term, s.alloc)))
+		if s.c.cellsMode {
+			// the strings of a match of ansi.expand live at virtual (negative) references, see cells.go
+			s.declCells()
+			s.assume(or(and(app("<=", "0", term), app("<", term, s.alloc)), and(app("isCellRef", term), app("<", term, "0"))))
+		} else {
+			s.assume(and(app("<=", "0", term), app("<", term, s.alloc)))
+		}
 	case c.Part == "o":
 		s.assume(app("<=", "0", term))
 	case c.Part == "l":
